@@ -962,15 +962,9 @@ where
         query_vec: &mut Queries<(ChanReq<Req, ReqMulti>, Option<XFRState>)>,
     ) {
         match &status.state {
-            ConnState::Active(timer) => {
-                // Set timer if we don't have one already
-                if timer.is_none() {
-                    status.state = ConnState::Active(Some(Instant::now()));
-                }
-            }
-            ConnState::Idle(_) => {
-                // Go back to active
-                status.state = ConnState::Active(Some(Instant::now()));
+            ConnState::Active(_) | ConnState::Idle(_) => {
+                // The timer is started below, once the request has actually
+                // been added to the outstanding queries.
             }
             ConnState::IdleTimeout => {
                 // The connection has been closed. Report error
@@ -1061,6 +1055,24 @@ where
         match Self::convert_query(&req.msg) {
             Ok(msg) => {
                 *reqmsg = Some(msg);
+
+                match &status.state {
+                    ConnState::Active(timer) => {
+                        // Set timer if we don't have one already
+                        if timer.is_none() {
+                            status.state =
+                                ConnState::Active(Some(Instant::now()));
+                        }
+                    }
+                    ConnState::Idle(_) => {
+                        // Go back to active
+                        status.state =
+                            ConnState::Active(Some(Instant::now()));
+                    }
+                    _ => {
+                        // The error states have returned above.
+                    }
+                }
             }
             Err(err) => {
                 // Take the sender out again and return the error.
